@@ -238,3 +238,17 @@ package scanner
 //@ scan inv lblEnd <= lex.p + 1
 //@ scan inv-at _again, _resume : entrystate(lex.cs)
 //@ scan inv-at _again, _resume : lex.cs == $E ==> 1 <= lex.top
+
+// The two byte predicates used by the look-ahead helpers must denote the same classes as the
+// automaton's varname_first / varname_second (scanner.rl: [a-zA-Z_] | 0x80..0xFF, plus digits):
+// the scanners `heredoc`, `template_string`, `backqote` hand a '$' to `string_var` exactly when
+// isNotStringVar says a variable follows, and `string_var` consumes it exactly when the automaton's
+// class matches; a byte on which the two disagree is returned unconsumed for ever (C01: no hang).
+//@ func isValidVarNameStart
+//@   ensures result == ((r >= 'A' && r <= 'Z') || (r >= 'a' && r <= 'z') || r == '_' || r >= 128)
+//@   modifies nothing
+//@   props C01
+//@ func isValidVarName
+//@   ensures result == ((r >= 'A' && r <= 'Z') || (r >= 'a' && r <= 'z') || (r >= '0' && r <= '9') || r == '_' || r >= 128)
+//@   modifies nothing
+//@   props C01
